@@ -59,16 +59,18 @@ fn drive(args: &[String]) {
     let entries: Vec<PathBuf> = args_all(args, "--entry").into_iter().map(PathBuf::from).collect();
     std::fs::create_dir_all(&out).unwrap();
     let services: Vec<pilota_build::IdlService> = entries.iter().map(|p| pilota_build::IdlService::from_path(p.clone())).collect();
-    let split = mode == "split" || mode == "workspace_split";
+    let split = mode == "split" || mode == "workspace_split" || mode == "split_touch";
     // option variants of single-file mode: prune unused items (the builder's default), keep unknown fields
-    let ignore_unused = mode == "single_iu" || mode == "single_touch";
+    let ignore_unused = mode == "single_iu" || mode == "single_touch" || mode == "split_touch";
     // `touch`: keep some otherwise unused items of several files (printed family only: its item names are known)
     let mut touches: Vec<(PathBuf, Vec<String>)> = vec![];
-    if mode == "single_touch" {
+    if mode == "single_touch" || mode == "split_touch" {
         for e in &entries {
             let stem = e.file_stem().map(|s| s.to_string_lossy().to_string()).unwrap_or_default();
             if let Some(i) = stem.strip_prefix("fam").and_then(|x| x.parse::<usize>().ok()) {
                 touches.push((e.clone(), vec![format!("FooBar{}", i), "Common".to_string(), format!("U{}", i), format!("foo_bar{}", i)]));
+            } else if let Some(i) = stem.strip_prefix("lib").and_then(|x| x.parse::<usize>().ok()) {
+                touches.push((e.clone(), (0..260).step_by(11).map(|k| format!("L{}S{}", i, (k + i * 3) % 260)).collect()));
             } else if stem == "fambig" {
                 touches.push((e.clone(), (0..330).step_by(7).map(|k| format!("Big{}", k)).collect()));
             }
@@ -253,6 +255,49 @@ fn print_family(dir: &Path, nfiles: usize) -> Vec<PathBuf> {
     entries
 }
 
+/// Large libraries of which little is used: four files of 260 structs each (some referring to their
+/// neighbours) and an application file whose service reaches a few of them; with `ignore_unused` (and
+/// `touch` lists naming further items in several files) most of the input is pruned, so the ids of the
+/// items that stay are sparse.
+fn print_pruned(dir: &Path) -> Vec<PathBuf> {
+    std::fs::create_dir_all(dir).unwrap();
+    let mut entries = vec![];
+    for i in 0..4 {
+        let mut s = format!("namespace rs pruned.lib{}\n\n", i);
+        for k in 0..260 {
+            s.push_str(&format!("struct L{}S{} {{\n  1: optional i32 a,\n  2: optional string b,\n", i, k));
+            if k % 9 == 0 && k + 5 < 260 {
+                s.push_str(&format!("  3: optional L{}S{} next,\n", i, k + 5));
+            }
+            if k % 13 == 0 {
+                s.push_str(&format!("  4: optional list<L{}E{}> kinds,\n", i, k % 5));
+            }
+            s.push_str("}\n");
+            if k < 5 {
+                s.push_str(&format!("enum L{}E{} {{ A = 0, B = 1, C = 2 }}\n", i, k));
+            }
+        }
+        let p = dir.join(format!("lib{}.thrift", i));
+        std::fs::write(&p, s).unwrap();
+        entries.push(p);
+    }
+    let mut s = String::new();
+    for i in 0..4 {
+        s.push_str(&format!("include \"lib{}.thrift\"\n", i));
+    }
+    s.push_str("namespace rs pruned.app\n\nstruct Req {\n");
+    for i in 0..4 {
+        for (n, k) in [3usize, 27, 90, 117, 200].iter().enumerate() {
+            s.push_str(&format!("  {}: optional lib{}.L{}S{} f{}x{},\n", i * 10 + n + 1, i, i, k, i, k));
+        }
+    }
+    s.push_str("}\nservice App { Req call(1: Req req) }\n");
+    let p = dir.join("app.thrift");
+    std::fs::write(&p, s).unwrap();
+    entries.push(p);
+    entries
+}
+
 /// A printed family of .proto files: several nested messages per message (two
 /// levels), nested enums, maps, oneofs, cross-file imports, shared package prefixes.
 fn print_pfamily(dir: &Path, nfiles: usize) -> Vec<PathBuf> {
@@ -383,6 +428,9 @@ fn corpora(scratch: &Path, tier_thorough: bool) -> Vec<Corpus> {
     v.push(Corpus { name: "pfamily_all_entries".into(), source: "protobuf", include: Some(pfam_dir), entries: pfam, modes: vec!["single", "split", "single_iu"] });
     v.push(Corpus { name: "family_last_entry".into(), source: "thrift", include: Some(fam_dir), entries: vec![fam[n - 1].clone()], modes: vec!["single", "workspace"] });
     v.push(Corpus { name: "family_big_namespace".into(), source: "thrift", include: None, entries: vec![fam[n].clone()], modes: vec!["single", "split"] });
+    let pruned_dir = scratch.join("pruned");
+    let pruned = print_pruned(&pruned_dir);
+    v.push(Corpus { name: "family_pruned".into(), source: "thrift", include: Some(pruned_dir), entries: pruned, modes: vec!["single_iu", "single_touch", "split_touch"] });
     v.push(Corpus { name: "family_type_graphs".into(), source: "thrift", include: None, entries: vec![fam[n + 1].clone()], modes: vec!["single", "single_iu", "workspace"] });
     v
 }
@@ -944,14 +992,14 @@ fn find_corpus<'a>(cs: &'a [Corpus], name: &str) -> Option<(usize, &'a Corpus)> 
 }
 
 fn static_mode(m: &str) -> &'static str {
-    match m {
-        "single_iu" => "single_iu",
-        "single_touch" => "single_touch",
-        "single_keep" => "single_keep",
-        "split" => "split",
-        "workspace" => "workspace",
-        "workspace_split" => "workspace_split",
-        _ => "single",
+    // every mode the driver knows (a mode missing here would be replayed as plain "single")
+    const MODES: [&str; 11] = ["single", "split", "workspace", "workspace_split", "single_iu", "single_keep", "single_touch", "split_touch", "single_dedup", "single_nocase", "single_serde"];
+    match MODES.iter().find(|x| **x == m) {
+        Some(x) => x,
+        None => {
+            eprintln!("harness error: unknown mode {:?} in a run description", m);
+            std::process::exit(2);
+        }
     }
 }
 
@@ -1041,7 +1089,13 @@ fn replay(args: &[String]) -> i32 {
     let run = &v["run"];
     let entries: Vec<PathBuf> = v["entries"].as_array().cloned().unwrap_or_default().iter().filter_map(|e| e.as_str().map(PathBuf::from)).collect();
     // the printed family lives in scratch space: print it again
-    if run["corpus"].as_str().map(|c| c.starts_with("family")).unwrap_or(false) {
+    if run["corpus"].as_str() == Some("family_pruned") {
+        if let Some(first) = entries.first() {
+            if let Some(dir) = first.parent() {
+                print_pruned(dir);
+            }
+        }
+    } else if run["corpus"].as_str().map(|c| c.starts_with("family")).unwrap_or(false) {
         if let Some(first) = entries.first() {
             if let Some(dir) = first.parent() {
                 print_family(dir, 9);
